@@ -360,6 +360,7 @@ func runSchedule(oc *overlapCase) (viols []string, runs []*xrun, harnessErr stri
 	lc := oc.Lab
 	l, err := lab.NewSocketLab(lc.Strategy, lab.SocketOpts{Backends: lc.Backends, BasePaths: lc.BasePaths, Mutate: func(cfg *config.Config) {
 		cfg.Logging.RequestID.Enabled, cfg.Logging.Trace.Enabled = lc.ReqID, lc.Trace
+		lc.applyGuards(cfg)
 		cfg.Logging.RequestID.Header, cfg.Logging.Trace.Header = lc.ReqIDHdr, lc.TraceHdr
 		if lc.LogPlugin {
 			cfg.Plugins.Enabled = true
